@@ -18,7 +18,37 @@ def signature(d, hist):
     return "index_vs_scan:%s:%s:%s" % ("+".join(cls), what, ",".join(R.features(hist)) or "-")
 
 
+def wide_phase(chk):
+    """WideTable.tla: hundreds of rows (several leaves, interior pages), statements on runs of ids; probes through the
+    primary-key index, the secondary index and the scan after every step (TLC -simulate walks)."""
+    import widetable
+    thorough = chk.tier == "thorough"
+    hists = widetable.walks(chk, 60 if thorough else 8, 20 if thorough else 12)
+    outs = widetable.execute(hists)
+    probs, st = widetable.judge(hists, outs)
+    sigs = {}
+    for h, kind, d in probs:
+        if kind != "index":
+            continue
+        sig = "wide:%s:%s" % (d["what"], h[-1]["op"]["k"])
+        sigs[sig] = sigs.get(sig, 0) + 1
+        chk.classify(sig, {"behaviour": widetable.describe(h), "wide_hist": h, "detail": d})
+    if st["steps"] and st["abandoned"] > 0.5 * st["steps"]:
+        raise vlib.ToolError("more than half of the WideTable steps were abandoned")
+    if st["rows_max"] < 150:
+        raise vlib.ToolError("WideTable walks never built a table of 150 rows: the phase is vacuous")
+    chk.cov["wide_table"] = dict(st, walks=len(hists), signatures=sigs, sample=widetable.describe(hists[0]))
+    chk.mark("wide_table")
+
+
 def run(chk):
+    import vlib
+    globals()["vlib"] = vlib
+    _run_small(chk)
+    wide_phase(chk)
+
+
+def _run_small(chk):
     relrun.standard(chk, relevant, signature, schema="pk_idx_b")
 
 
